@@ -330,7 +330,9 @@ class World:
                 if ent["cmd"] == "ApplySubsetState":
                     may_create_group = (op == "redo")
                     if op == "undo" and ent["created_group"]:
-                        may_drop_groups = list(dc.subset_groups)[-1:]
+                        # the group this command created (recorded at do / redo), wherever it now sits
+                        g = ent.get("group")
+                        may_drop_groups = [g] if g is not None and g in dc.subset_groups else list(dc.subset_groups)[-1:]
                 (self.app.undo if op == "undo" else self.app.redo)()
                 src.pop()
                 dst.append(ent)
